@@ -291,6 +291,7 @@ static int SimSelect(int n, fd_set * r, fd_set * w, fd_set * e, struct timeval *
 {
    SimThread * me = t_self;
    Schedule("select");
+   if ((g_cfg.pEintrPct > 0)&&((int) g_rng.below(100) < g_cfg.pEintrPct)&&(g_replayPos >= g_cfg.replay.size())) {g_stats.eintrs++; errno = EINTR; return -1;}   // interrupted before anything was ready: fd sets are unspecified, the caller retries
    while(true)
    {
       fd_set rc, wc; FD_ZERO(&rc); FD_ZERO(&wc); if (r) rc = *r; if (w) wc = *w; struct timeval z = {0, 0};
@@ -377,8 +378,9 @@ int __wrap_select(int n, fd_set * r, fd_set * w, fd_set * e, struct timeval * tv
    if ((t_self == NULL)||(g_muscleVerifSim == NULL)) {struct timeval z = {0, 0}; return __real_select(n, r, w, e, &z);}
    return SimSelect(n, r, w, e, tv);
 }
-ssize_t __wrap_send(int fd, const void * b, size_t n, int f) {if ((t_self)&&(g_muscleVerifSim)) Schedule("send"); return __real_send(fd, b, n, f);}
-ssize_t __wrap_recv(int fd, void * b, size_t n, int f) {if ((t_self)&&(g_muscleVerifSim)) Schedule("recv"); return __real_recv(fd, b, n, f);}
+static bool SimEintr() {if ((g_cfg.pEintrPct > 0)&&((int) g_rng.below(100) < g_cfg.pEintrPct)&&(g_replayPos >= g_cfg.replay.size())) {g_stats.eintrs++; errno = EINTR; return true;} return false;}
+ssize_t __wrap_send(int fd, const void * b, size_t n, int f) {if ((t_self)&&(g_muscleVerifSim)) {Schedule("send"); if (SimEintr()) return -1;} return __real_send(fd, b, n, f);}
+ssize_t __wrap_recv(int fd, void * b, size_t n, int f) {if ((t_self)&&(g_muscleVerifSim)) {Schedule("recv"); if (SimEintr()) return -1;} return __real_recv(fd, b, n, f);}
 
 // Symbol interposition (not --wrap): these are called from inside libstdc++.so (std::condition_variable::wait / notify_one / notify_all,
 // std::chrono::steady_clock::now) as well as from header-inline code, and the executable's definition wins the dynamic lookup for both.
